@@ -94,6 +94,53 @@ theorem forPush3_fns (n j : Nat) (r : RState3 F) (v : Str) (x y z : F) :
   · exact ⟨rfl, rfl⟩
   · split <;> exact ⟨rfl, rfl⟩
 
+theorem readTargetSpec_tab (items : List (Nat × DataElement F)) (r : RState3 F) (t : RTarget F) :
+    (readTargetSpec items r t).1.fns = r.fns ∧ (readTargetSpec items r t).1.fnLines = r.fnLines := by
+  cases t with
+  | scalar x =>
+    simp only [readTargetSpec, readScalarSpec]
+    cases items[r.data]? with
+    | none => exact ⟨rfl, rfl⟩
+    | some lnd =>
+      obtain ⟨ln, d⟩ := lnd
+      dsimp only
+      cases Value.coerceFromData x d <;> exact ⟨rfl, rfl⟩
+  | cell name idx =>
+    simp only [readTargetSpec, readCellSpec, evalIdx]
+    cases foldIdx callFuel r.env idx with
+    | error err => exact ⟨rfl, rfl⟩
+    | ok q =>
+      obtain ⟨index, env'⟩ := q
+      dsimp only
+      cases items[(r.put env').data]? with
+      | none => exact ⟨rfl, rfl⟩
+      | some lnd =>
+        obtain ⟨ln, d⟩ := lnd
+        dsimp only
+        cases Value.coerceFromData name d with
+        | error e => exact ⟨rfl, rfl⟩
+        | ok v =>
+          dsimp only
+          cases storeCell name index v (r.put env').arrays <;> exact ⟨rfl, rfl⟩
+
+theorem readTargetsSpec_tab (items : List (Nat × DataElement F)) : ∀ (ts : List (RTarget F)) (r : RState3 F),
+    (readTargetsSpec items r ts).1.fns = r.fns ∧ (readTargetsSpec items r ts).1.fnLines = r.fnLines
+  | [], r => ⟨rfl, rfl⟩
+  | t :: rest, r => by
+    have h1 := readTargetSpec_tab items r t
+    have hsp : readTargetsSpec items r (t :: rest) =
+        match readTargetSpec items r t with
+        | (r', .next) => readTargetsSpec items r' rest
+        | x => x := rfl
+    rw [hsp]
+    generalize readTargetSpec items r t = res at h1
+    obtain ⟨r', ctl⟩ := res
+    cases ctl with
+    | next =>
+      have h2 := readTargetsSpec_tab items rest r'
+      exact ⟨h2.1.trans h1.1, h2.2.trans h1.2⟩
+    | _ => exact h1
+
 /-- the entries of the table after a reference step: those before it, or what the statement defines -/
 theorem exec_fns (items : List (Nat × DataElement F)) (n j : Nat) :
     ∀ (s : RStmt3 F) (r : RState3 F),
@@ -223,7 +270,9 @@ theorem exec_fns (items : List (Nat × DataElement F)) (n j : Nat) :
       obtain ⟨ln, k⟩ := a
       simp only [RStmt3.exec, hr]
       exact ⟨fun _ _ h => Or.inl h, fun _ _ h => Or.inl h⟩
-  | .readS ts, r => ⟨fun _ _ h => Or.inl h, fun _ _ h => Or.inl h⟩
+  | .readS ts, r => by
+    obtain ⟨hf, hl⟩ := readTargetsSpec_tab items ts r
+    exact ⟨fun _ _ h => Or.inl (by rw [← hf]; exact h), fun _ _ h => Or.inl (by rw [← hl]; exact h)⟩
   | .dataS items', r => ⟨fun _ _ h => Or.inl h, fun _ _ h => Or.inl h⟩
   | .restoreS, r => ⟨fun _ _ h => Or.inl h, fun _ _ h => Or.inl h⟩
   | .dimS name dims, r => by
